@@ -539,8 +539,30 @@ def dispatch(name: str, func: Any, args: Tuple[Any, ...], kwargs: Dict[str, Any]
     if h is None:
         if name in ELEMENTWISE_UNARY:
             return _h_unary(name, func, args, kwargs)
-        raise HarnessError(f"engine S has no stub for torch op '{name}'")
+        return _h_generic(name, func, args, kwargs)
     return h(name, func, args, kwargs)
+
+
+def _h_generic(name: str, func: Any, args: Tuple[Any, ...], kw: Dict[str, Any]) -> Any:
+    """An op without a dedicated stub: an uninterpreted term whose shape torch decides on the meta tensors.  It can
+    only unify with itself, so a claim that needs its semantics is refuted symbolically and decided by the replay."""
+    if func is None:
+        raise HarnessError(f"engine S has no stub for torch op '{name}'")
+    try:
+        meta = func(*[_meta_args(a) for a in args], **{k: _meta_args(v) for k, v in kw.items()})
+    except Exception as e:
+        raise HarnessError(f"engine S has no stub for torch op '{name}' and meta execution failed: {e}")
+    if not isinstance(meta, torch.Tensor):
+        raise HarnessError(f"engine S has no stub for torch op '{name}' (non-tensor result)")
+    ts = [a for a in args if isinstance(a, STensor)]
+    shape: Tuple[Any, ...] = tuple(meta.shape)
+    for t in ts:
+        if t.shape.sample() == tuple(meta.shape):
+            shape = tuple(t.shape)
+            break
+    ctx().events.append(f"generic stub for {name}")
+    statics = {k: (v if not isinstance(v, torch.dtype) else str(v)) for k, v in kw.items() if not isinstance(v, STensor)}
+    return opaque(f"?{name}", list(args), statics, shape, meta)
 
 
 def _h_unary(name: str, func: Any, args: Tuple[Any, ...], kw: Dict[str, Any]) -> STensor:
